@@ -220,6 +220,7 @@ func c07Read(c *Ctx) {
 		codep  string
 		kinds  []int // per decoded byte: 0 accept, 1 reject, 2 other
 		srcErr int
+		acc    string // u.accepted after the call
 	}
 	var out []rec
 	var cur rec
@@ -270,6 +271,7 @@ func c07Read(c *Ctx) {
 		if k, ok := mm.Load(fold.Ref{O: recv, Path: []int{L.utf8Codep}}).(fold.Int); ok {
 			cur.codep = k.Name
 		}
+		cur.acc = fold.Show(mm.Load(fold.Ref{O: recv, Path: []int{L.utf8Accepted}}))
 		out = append(out, cur)
 	})
 	c.R.AddCells(len(paths))
@@ -318,9 +320,22 @@ func c07Read(c *Ctx) {
 			prevState = fmt.Sprint([]int64{0, 12, 24}[r.kinds[i]])
 			prevCodep = fmt.Sprintf("codep%d", i+1)
 		}
+		// the validated prefix of this call: up to and including the last byte that completed a sequence
+		accepted := 0
+		for i, k := range r.kinds {
+			if k == 1 {
+				break
+			}
+			if k == 0 {
+				accepted = i + 1
+			}
+		}
 		if rejectAt >= 0 {
 			if e != errUTF8 {
 				problems = append(problems, "a rejected byte must return ErrInvalidUTF8, got "+e)
+			}
+			if fold.Show(ret[0]) != fmt.Sprint(accepted) {
+				problems = append(problems, fmt.Sprintf("a rejected byte must be reported with the validated prefix %d, got %s", accepted, fold.Show(ret[0])))
 			}
 			if r.state != "12" {
 				problems = append(problems, "after a reject the stored state is "+r.state+", so Valid() may turn true again")
@@ -329,6 +344,9 @@ func c07Read(c *Ctx) {
 		}
 		if r.state != prevState || (wantSteps > 0 && r.codep != prevCodep) {
 			problems = append(problems, fmt.Sprintf("state written back is (%s,%s), want (%s,%s)", r.state, r.codep, prevState, prevCodep))
+		}
+		if r.acc != fmt.Sprint(accepted) {
+			problems = append(problems, fmt.Sprintf("after reading %d bytes Accepted() is %s, want %d (a stale count from an earlier call makes Reader.Read report more bytes than it read)", r.n, r.acc, accepted))
 		}
 		wantErr := []string{"nil", "global:io.EOF", "src-error"}[r.srcErr]
 		if e != wantErr || fold.Show(ret[0]) != fmt.Sprint(r.n) {
